@@ -5,7 +5,7 @@ from . import core, fitgen, c04, c01, c07
 
 CLASSES = ["BinaryCarver", "ContinuousCarver", "MulticlassCarver", "Discretizer", "QuantitativeDiscretizer", "QualitativeDiscretizer"]
 DEFECTS = ["y_nan", "y_classes", "y_index", "x_not_frame", "y_not_series", "missing_col", "missing_col_dev", "both_types",
-           "str_in_quant", "not_in_ranking", "bad_sort_by", "refit", "y_len", "y_dev_not_series"]
+           "str_in_quant", "not_in_ranking", "bad_sort_by", "refit", "y_len", "y_dev_not_series", "ranking_and_str"]
 
 
 def target_for(cls):
@@ -35,6 +35,9 @@ def build(cls, ds, cfg, **over):
     return D.QualitativeDiscretizer(qualitative_features=c, ordinal_features=o, min_freq=cfg["min_freq"], values_orders=vo, copy=True)
 
 
+LAST = {}        # the arguments of the last real `fit` call, for the abstract description handed to the guard model
+
+
 def fit(obj, ds, X=None, y=None, X_dev="same", y_dev="same"):
     X = ds["X"] if X is None else X
     y = ds["y"] if y is None else y
@@ -44,6 +47,7 @@ def fit(obj, ds, X=None, y=None, X_dev="same", y_dev="same"):
         yd = ds["y_dev"] if isinstance(y_dev, str) else y_dev
         if xd is not None:
             kw = {"X_dev": xd, "y_dev": yd}
+    LAST.clear(); LAST.update({"X": X, "y": y, "X_dev": kw.get("X_dev"), "y_dev": kw.get("y_dev")})
     with warnings.catch_warnings():
         warnings.simplefilter("ignore")
         return obj.fit(X, y, **kw)
@@ -58,7 +62,7 @@ def inject(rng, cls, ds, cfg, defect):
         y = ds["y"].astype(object).copy(); y.iloc[pos] = np.nan
         if cls != "MulticlassCarver":
             y = pd.Series([np.nan if i == pos else v for i, v in enumerate(ds["y"].tolist())], index=ds["y"].index, dtype=float)
-        return lambda obj: fit(obj, ds, y=y)
+        return Act(ds, y=y)
     if defect == "y_classes":
         if cls == "BinaryCarver":
             y = ds["y"].copy(); y.iloc[pos] = 2
@@ -68,7 +72,7 @@ def inject(rng, cls, ds, cfg, defect):
             y = pd.Series([i % 2 for i in range(n)], index=ds["y"].index)
         else:
             return None
-        return lambda obj: fit(obj, ds, y=y)
+        return Act(ds, y=y)
     if defect == "y_index":
         y = ds["y"].copy()
         mode = rng.choice(["other", "reversed", "swapped", "shifted"])
@@ -81,16 +85,16 @@ def inject(rng, cls, ds, cfg, defect):
             i, j = rng.sample(range(n), 2); idx[i], idx[j] = idx[j], idx[i]; y.index = idx
         else:
             y.index = idx[1:] + idx[:1]
-        return lambda obj: fit(obj, ds, y=y)
+        return Act(ds, y=y)
     if defect == "y_len":
         if n < 3:
             return None
         y = ds["y"].iloc[:-1]
-        return lambda obj: fit(obj, ds, y=y)
+        return Act(ds, y=y)
     if defect == "x_not_frame":
-        return lambda obj: fit(obj, ds, X=ds["X"].values)
+        return Act(ds, X=ds["X"].values)
     if defect == "y_not_series":
-        return lambda obj: fit(obj, ds, y=ds["y"].tolist())
+        return Act(ds, y=ds["y"].tolist())
     feats = ds["quantitative"] + ds["qualitative"] + ds["ordinal"]
     if cls == "QuantitativeDiscretizer":
         feats = ds["quantitative"]
@@ -100,7 +104,7 @@ def inject(rng, cls, ds, cfg, defect):
         if not feats:
             return None
         X = ds["X"].drop(columns=[rng.choice(feats)])
-        return lambda obj: fit(obj, ds, X=X)
+        return Act(ds, X=X)
     if defect == "missing_col_dev":
         if not is_carver or ds["X_dev"] is None or not feats:
             return None
@@ -108,12 +112,12 @@ def inject(rng, cls, ds, cfg, defect):
         # declared features are checked, not only the ones that survive)
         idl = [f for f in feats if f.startswith("id")]
         Xd = ds["X_dev"].drop(columns=[rng.choice(idl) if idl and rng.random() < 0.6 else rng.choice(feats)])
-        return lambda obj: fit(obj, ds, X_dev=Xd)
+        return Act(ds, X_dev=Xd)
     if defect == "y_dev_not_series":
         if not is_carver or ds["X_dev"] is None:
             return None
         yd = ds["y_dev"].to_numpy() if rng.random() < 0.5 else ds["y_dev"].tolist()
-        return lambda obj: fit(obj, ds, y_dev=yd)
+        return Act(ds, y_dev=yd)
     if defect == "both_types":
         if not is_carver or not ds["quantitative"]:
             return None
@@ -135,15 +139,23 @@ def inject(rng, cls, ds, cfg, defect):
             X[f] = X[f].astype("category")
         elif k < 0.4:
             X[f] = X[f].astype("string")
-        return lambda obj: fit(obj, ds, X=X)
+        return Act(ds, X=X)
     if defect == "not_in_ranking":
         if not ds["ordinal"] or cls == "QuantitativeDiscretizer":
             return None
         f = rng.choice(ds["ordinal"])
         X = ds["X"].copy(); X.iloc[pos, X.columns.get_loc(f)] = "not_ranked"
-        act = lambda obj: fit(obj, ds, X=X)
+        act = Act(ds, X=X)
         act.feature = f
         return act
+    if defect == "ranking_and_str":
+        # both at once, in the same frame: the qualitative pipeline runs first (which guard fires is the guard model's business)
+        if not ds["ordinal"] or not ds["quantitative"] or cls in ("QuantitativeDiscretizer", "QualitativeDiscretizer"):
+            return None
+        f, g = rng.choice(ds["ordinal"]), rng.choice(ds["quantitative"])
+        X = ds["X"].copy(); X.iloc[pos, X.columns.get_loc(f)] = "not_ranked"
+        X[g] = X[g].astype(object); X.iloc[rng.randrange(n), X.columns.get_loc(g)] = "oops"
+        return Act(ds, X=X)
     if defect == "bad_sort_by":
         if not is_carver:
             return None
@@ -161,9 +173,118 @@ def inject(rng, cls, ds, cfg, defect):
                 if str(X2[f].dtype).startswith("float"):
                     X2[f] = X2[f] * 2 + 1
                     X2.loc[X2.index[::7], f] = np.nan
-            return lambda obj: fit(obj, ds, X=X2)
-        return lambda obj: fit(obj, ds)
+            return Act(ds, X=X2)
+        return Act(ds)
     return None
+
+
+GUARD_MESSAGES = {
+    "already fitted": ["already been fitted"],
+    "X must be a pandas.DataFrame": ["X must be a pandas.DataFrame"],
+    "columns are missing": ["columns are missing from provided X"],
+    "y must be a pandas.Series": ["y must be a pandas.Series"],
+    "y should not contain numpy.nan": ["y should not contain numpy.nan"],
+    "X and y must have the same indices": ["X and y must have the same indices"],
+    "X_dev must be a pandas.DataFrame": ["X must be a pandas.DataFrame"],
+    "columns are missing from X_dev": ["columns are missing from provided X"],
+    "y_dev": ["y must be a pandas.Series", "y should not contain numpy.nan", "X and y must have the same indices", "y_dev"],
+    "y must be a binary Series": ["y must be a binary Series"],
+    "y must be a continuous Series": ["provided y is binary", "y must be a continuous Series"],
+    "provided y is binary": ["provided y is binary"],
+    "Non-numeric features": ["Non-numeric features"],
+    "Unexpected value": ["Unexpected value"],
+}
+
+
+def declared(cls, ds):
+    if cls == "QuantitativeDiscretizer":
+        return list(ds["quantitative"]), [], []
+    if cls == "QualitativeDiscretizer":
+        return [], list(ds["qualitative"]), list(ds["ordinal"])
+    return list(ds["quantitative"]), list(ds["qualitative"]), list(ds["ordinal"])
+
+
+def abstract_call(cls, ds, fitted_before):
+    """the facts the guards of `fit` look at, measured on the very arguments of the last call (`LAST`)"""
+    X, y, xd, yd = LAST["X"], LAST["y"], LAST["X_dev"], LAST["y_dev"]
+    q, c, o = declared(cls, ds)
+    feats = q + c + o
+    is_frame = isinstance(X, pd.DataFrame)
+    is_series = isinstance(y, pd.Series)
+    same_len = is_frame and is_series and len(y.index) == len(X.index)
+
+    def aligned(a, b):
+        try:
+            return bool(len(a.index) == len(b.index) and all(a.index == b.index))
+        except Exception:
+            return False
+    vals = list(pd.unique(y)) if is_series else []
+    dev_frame = isinstance(xd, pd.DataFrame)
+    dev_y_ok = isinstance(yd, pd.Series) and not bool(yd.isna().any()) and dev_frame and aligned(yd, xd)
+    present = lambda f: is_frame and f in X.columns
+    return {
+        "already_fitted": bool(fitted_before), "x_is_frame": is_frame,
+        "missing_columns": is_frame and any(f not in X.columns for f in feats),
+        "y_is_series": is_series, "y_has_nan": is_series and bool(y.isna().any()),
+        "same_length": bool(same_len), "same_index": bool(same_len and aligned(y, X)),
+        "has_dev": xd is not None, "dev_is_frame": dev_frame,
+        "dev_missing_columns": dev_frame and any(f not in xd.columns for f in feats), "dev_y_ok": bool(dev_y_ok),
+        "n_classes": len(vals), "y_is_zero_one": bool((0 in vals) and (1 in vals)),
+        "y_has_strings": any(isinstance(v, str) for v in vals),
+        "str_in_quant": any(isinstance(v, str) for f in q if present(f) for v in X[f].tolist()),
+        "outside_ranking": any(fitgen.cell(v) is not None and v not in ds["values_orders"].get(f, [v]) for f in o if present(f)
+                               for v in X[f].tolist()),
+    }
+
+
+def compare_guards(drv, cls, ds, fitted_before, outcome, msg, dropped_feature, stats):
+    """the guard model (Lean `Validate.fitGuards`) on the abstract description of the call vs what the real `fit` did.
+    `outcome`: 'ok', 'AssertionError' or another exception name"""
+    if not LAST:
+        return None
+    try:
+        call = abstract_call(cls, ds, fitted_before)
+    except Exception:
+        stats["guard_model"]["not_described"] = stats["guard_model"].get("not_described", 0) + 1
+        return None
+    r = drv.call({"op": "validate.fit", "class": cls, "call": call})
+    key = r.get("outcome", "?") + ":" + r.get("guard", "")
+    stats["guard_model"][key] = stats["guard_model"].get(key, 0) + 1
+    if r.get("outcome") == "assertion":
+        if outcome == "ok":
+            if dropped_feature:
+                return None        # the feature was dropped before its values were looked at (outside the guard model)
+            return {"kind": "correspondence", "what": "the guard model refuses the call, fit accepted it", "model": r, "call": call}
+        if outcome == "AssertionError" and not any(m in msg for m in GUARD_MESSAGES.get(r["guard"], [r["guard"]])):
+            return {"kind": "correspondence", "what": "fit refused the call with another guard than the guard model's first failing guard",
+                    "model": r, "message": msg[:200], "call": call}
+    elif r.get("outcome") == "accepted" and outcome == "AssertionError":
+        # assertions outside the guard model (classes of y vs y_dev, values of the features ...): counted, not judged here
+        stats["guard_model"]["assertion_outside_model"] = stats["guard_model"].get("assertion_outside_model", 0) + 1
+    return None
+
+
+class Act:
+    """one `fit` call with some of its arguments replaced"""
+    def __init__(self, ds, **kw):
+        self.ds, self.kw = ds, kw
+
+    def __call__(self, obj):
+        return fit(obj, self.ds, **self.kw)
+
+
+class Both:
+    """two malformations at once (on different arguments): which guard fires first is the model's business"""
+    def __init__(self, ds, a, b):
+        self.ds, self.kw = ds, {**a.kw, **b.kw}
+        self.feature = getattr(a, "feature", None) or getattr(b, "feature", None)
+
+    def __call__(self, obj):
+        return fit(obj, self.ds, **self.kw)
+
+
+PAIRS = [("missing_col", "y_nan"), ("x_not_frame", "y_not_series"), ("missing_col_dev", "y_classes"), ("y_classes", "str_in_quant"),
+         ("y_nan", "not_in_ranking"), ("y_dev_not_series", "missing_col"), ("y_index", "str_in_quant"), ("y_len", "missing_col")]
 
 
 def state_of(obj, X):
@@ -171,7 +292,7 @@ def state_of(obj, X):
     return json.dumps([obj.to_json(), fitgen.state_wire(obj)["orders"], out, err], sort_keys=True, default=str)
 
 
-def check_case(rng, stats):
+def check_case(rng, stats, drv=None):
     fails = []
     cls = rng.choice(CLASSES)
     target = target_for(cls)
@@ -194,12 +315,17 @@ def check_case(rng, stats):
 
     def fail(what, **kw):
         fails.append({"kind": "property", "what": what, "class": cls, "case": desc, **kw})
-    for defect in rng.sample(DEFECTS, 5):
+    todo = [(d, None) for d in rng.sample(DEFECTS, 5)] + [rng.choice(PAIRS)]
+    for defect, second in todo:
         for fitted_before in (False, True):
             if defect == "refit" and not fitted_before:
                 continue
             try:
                 act = inject(rng, cls, ds, cfg, defect)
+                if second is not None:
+                    b = inject(rng, cls, ds, cfg, second)
+                    act = None if (act is None or b is None or isinstance(act, tuple) or isinstance(b, tuple)) else Both(ds, act, b)
+                    defect = f"{defect}+{second}" if "+" not in defect else defect
             except Exception:
                 act = None
             if act is None:
@@ -223,22 +349,39 @@ def check_case(rng, stats):
                 obj = build(cls, ds, cfg)
                 before = None
                 if fitted_before:
+                    LAST.clear()
                     fit(obj, ds)
+                    if drv is not None:
+                        # the well-formed call: the guard model must accept it as well
+                        g = compare_guards(drv, cls, ds, False, "ok", "", False, stats)
+                        if g is not None:
+                            fails.append({**g, "class": cls, "case": desc, "defect": "none (well-formed call)", "fitted_before": False})
                     if not obj.features:
                         continue
                     before = state_of(obj, ds["X"])
             except Exception:
                 continue
+            LAST.clear()
+            outcome, msg, dropped = "ok", "", False
             try:
                 act(obj)
-                if getattr(act, "feature", None) is not None and act.feature not in obj.features:
-                    continue      # the feature was dropped (largest modality rarer than min_freq) before its values were looked at
-                fail(f"malformed input accepted ({defect}{', on a fitted object' if fitted_before else ''})", defect=defect, fitted_before=fitted_before)
-            except AssertionError:
+                dropped = getattr(act, "feature", None) is not None and act.feature not in obj.features
+                if not dropped:
+                    # (otherwise the feature was dropped - largest modality rarer than min_freq - before its values were looked at)
+                    fail(f"malformed input accepted ({defect}{', on a fitted object' if fitted_before else ''})", defect=defect, fitted_before=fitted_before)
+            except AssertionError as e:
                 stats["rejected"] += 1
+                outcome, msg = "AssertionError", str(e)
             except Exception as e:
+                outcome, msg = type(e).__name__, str(e)
                 fail(f"malformed input raised {type(e).__name__} instead of AssertionError ({defect}{', on a fitted object' if fitted_before else ''})",
                      defect=defect, fitted_before=fitted_before, error=str(e)[:200], exc=type(e).__name__)
+            if drv is not None:
+                g = compare_guards(drv, cls, ds, fitted_before, outcome, msg, dropped, stats)
+                if g is not None:
+                    fails.append({**g, "class": cls, "case": desc, "defect": defect, "fitted_before": fitted_before})
+            if dropped:
+                continue
             if fitted_before:
                 try:
                     after = state_of(obj, ds["X"])
@@ -254,10 +397,14 @@ def worker(args):
     core.import_repo()
     rng = random.Random(seed)
     fails, sample, sigs = [], None, set()
-    stats = {"cases": 0, "calls": 0, "rejected": 0, "defects": {}}
-    for _ in range(max(1, n // 3)):
-        fs = check_case(rng, stats)
-        fails += fs
+    stats = {"cases": 0, "calls": 0, "rejected": 0, "defects": {}, "guard_model": {}}
+    drv = core.Driver()
+    try:
+        for _ in range(max(1, n // 3)):
+            fs = check_case(rng, stats, drv)
+            fails += fs
+    finally:
+        drv.close()
     return fails[:10], len(fails), stats, sample, stats["calls"]
 
 
